@@ -412,7 +412,7 @@ func (d *c05Dumper) command(cmd syntax.Command, redirs []*syntax.Redirect) (stri
 				pats.other(fmt.Sprintf("( w %s )", c05Pos(p.Pos())))
 				d.word(p, pats)
 			}
-			fmt.Fprintf(&sb, " ( ci %s %s %d %s %s %s %s )", c05Pos(ci.Pos()), c05Pos(ci.OpPos), c05StmtsEnd(ci.Stmts, ci.Last).Line(),
+			fmt.Fprintf(&sb, " ( ci %s %s %s %d %s %s %s %s )", c05Pos(ci.Pos()), c05Pos(ci.OpPos), c05B(ci.Op == syntax.Break), c05StmtsEnd(ci.Stmts, ci.Last).Line(),
 				c05ComsS(ci.Comments), pats.String("I"), d.stmts(ci.Stmts), c05ComsS(ci.Last))
 		}
 		sb.WriteString(" ) " + c05ComsS(c.Last) + " )")
